@@ -30,8 +30,14 @@ LEVEL_TEXT = (
     "passing the rebuilt siblings; the stack mapper is interpreted (sa/rules/stackmodel.py): a refined field must"
     " take a value its refinement validated (known finding: the plain stack shadows the refined branch); (R6) "
     "Dependent.generate is interpreted: the callable receives the sibling values named in the refinement, in the "
-    "named order, and the resulting type goes to the creation callback. User-supplied Dependent callables and the"
-    " SMT refinement have no decidable validator and are listed as skipped."
+    "named order, and the resulting type goes to the creation callback. (R7) every refinement of a list type is "
+    "interpreted with base type list[X] for X = a symbol, a list, a refined symbol and a union: each element is "
+    "obtained by asking the creation callback for exactly X (one level unwrapped), and the returned list holds "
+    "exactly the created elements in order; (R8) refinements are the metadata of Annotated types, which the "
+    "typing runtime merges when the metadata compare equal: every refinement class either keeps identity "
+    "comparison or its __eq__ / __hash__ read every parameter its constructor stores (a two-parameter refinement "
+    "equal on its first parameter would silently replace one field's refinement by another's). User-supplied "
+    "Dependent callables and the SMT refinement have no decidable validator and are listed as skipped."
 )
 
 SKIP = {
